@@ -1409,6 +1409,9 @@ class System:
                 readd(c)
         readd(prev)
         self.allobjects[fullName] = obj
+        # The shadowed object is not a member of its parent anymore, so it
+        # is not rendered: hide it, such that nothing lists it or links to it.
+        self._privacyClassCache[prev.fullName()] = PrivacyClass.HIDDEN
 
 
     def getProcessedModule(self, modname: str) -> Optional[_ModuleT]:
